@@ -38,12 +38,12 @@ Definition invm (q a : N) : N :=
   Z.to_N ((egcd (2 * N.to_nat (N.size q) + 2) (Z.of_N (a mod q)) (Z.of_N q) 1 0) mod Z.of_N q).
 
 (** little-endian *)
-Definition le_dec (l : list byte) : N := be_dec_h (rev l).
-Definition le_enc (k : nat) (v : N) : list byte := rev (be_enc_f k v).
+Definition le_val (l : list byte) : N := be_dec_h (rev l).
+Definition le_bytes (k : nat) (v : N) : list byte := rev (be_enc_f k v).
 
 (** ed25519 blinding factor: SHA-512(blind || 0x00 || context)[0:32] as a little-endian integer, mod L *)
 Definition ed_blind_factor (blind context : list byte) : N :=
-  le_dec (firstn 32 (sha512 (blind ++ [x00] ++ context))) mod order_ed25519.
+  le_val (firstn 32 (sha512 (blind ++ [x00] ++ context))) mod order_ed25519.
 
 (** type-3 contexts: u16(3) || "ClientBlind" / "IssuerBlind" *)
 Definition ctx_client_blind : list byte := [x00; x03] ++ map n2b [67; 108; 105; 101; 110; 116; 66; 108; 105; 110; 100].
